@@ -12,9 +12,12 @@ from . import c15_canon as canon
 
 
 
-def plugin_sx(c):
+CUSTOM_OPS = "C15-forward-refs-custom-operations"
+
+
+def plugin_sx(c, variant="forward"):
     return {"S": [Sym("shorter"), "fragments"], "E": [Sym("extract"), "operations"],
-            "F": Sym("forward"), "N": Sym("noreimports"), "I": Sym("identity")}[c]
+            "F": Sym(variant), "N": Sym("noreimports"), "I": Sym("identity")}[c]
 
 
 def real_canonical(files):
@@ -72,17 +75,18 @@ def run(ctx, cases):
             run.broken("K1 canonicaliser", f"unplugged package of seed {case.sc.seed} unreadable: {type(exc).__name__}: {exc}")
             continue
         for cfg in case.configs:
-            if not case.gen[cfg].ok:
-                continue
-            cmds.append([Sym("generate"), [plugin_sx(c) for c in cfg], enc])
-            meta.append((case, cfg, "model"))
+            # the model of ClientForwardRefs has two variants (the code as found raises KeyError on
+            # `self.get_data(..)` of the custom-operation methods; the proposed fix skips it)
+            for variant in (("forward", "forward-lenient") if "F" in cfg else ("forward",)):
+                cmds.append([Sym("generate"), [plugin_sx(c, variant) for c in cfg], enc])
+                meta.append((case, cfg, variant))
     results = model.batch("C15", cmds, chunk=8) if cmds else []
     verdict = {}
     for (case, cfg, variant), res in zip(meta, results):
         key = (id(case), cfg)
         if key not in verdict:
             try:
-                real, other = real_canonical(case.files[cfg])
+                real, other = real_canonical(case.files[cfg]) if case.gen[cfg].ok else ("fails", [])
             except Exception as exc:  # noqa
                 verdict[key] = {"case": case, "cfg": cfg, "real_error": f"{type(exc).__name__}: {exc}", "variants": {}}
                 continue
@@ -92,6 +96,9 @@ def run(ctx, cases):
             continue
         used = set(canon.IDENT.findall(" ".join(v["other"])))
         mc = model_canonical(res, used)
+        if v["real"] == "fails":
+            v["variants"][variant] = None if mc == "fails" else "model generates, the generator fails"
+            continue
         # the operations module's __all__ is only comparable when the module exists
         if isinstance(mc, dict) and mc.get("operations") and v["real"].get("operations"):
             mc["operations"].pop("modules", None)
@@ -104,6 +111,14 @@ def run(ctx, cases):
             continue
         oks = [k for k, d in v["variants"].items() if d is None]
         run.dist("k1", "agree" if oks else "disagree")
+        if v["real"] == "fails" and oks:
+            # both sides refuse: generation with this plugin list crashes, as the faithful model predicts
+            run.dist("k1", "agree-on-failure")
+            if "F" in cfg and case.sc.config.get("enable_custom_operations"):
+                run.finding(CUSTOM_OPS, f"K1: model (code as found) and generator both fail for {cfg!r} with enable_custom_operations",
+                            {"seed": case.sc.seed, "configuration": cfg})
+        if "F" in cfg and oks:
+            run.dist("k1_forward_refs_variant", "+".join(oks))
         if not oks:
             run.violation(f"K1: model and generator disagree for plugins {cfg!r} (seed {case.sc.seed}): "
                           + json.dumps(v["variants"])[:900],
